@@ -87,6 +87,6 @@ CHECKS['C15'] = hist_check('C15', 'DDL histories over up to three tables in thre
                            'populated data), interleaved with DML on the same and on bystander tables and with reopen: after every step every existing table must equal the model, dropped / rolled-back / never-created names must not resolve, existing ones must.',
                            '; DDL steps as described in harness/src/c15.rs', 3000, 40000)
 CHECKS['C15']['rule'] = CHECKS['C15']['rule'].replace('fresh single-table database', 'fresh database with up to three tables')
-CHECKS['C15']['min_counters'] = {'quick': {'steps.create_table_in_txn': 300, 'steps.drop_table': 300, 'steps.name_probe': 1000}, 'thorough': {'steps.drop_table': 5000}}
+CHECKS['C15']['min_counters'] = {'quick': {'steps.create_table_in_txn': 300, 'steps.create_unique_index': 100, 'steps.name_probe': 1000}, 'thorough': {'steps.create_table_in_txn': 5000}}
 
 NOT_APPLICABLE = [{'property_id': c, 'reason': 'check not built yet in this session (work in progress, see DESIGN.md)'} for c in ALL if c not in CHECKS]
